@@ -133,9 +133,6 @@ def glob17Case (id : String) (payload : List Sexp) : List String :=
   let sub (k : String) : List Sexp := match p.field? k with
     | some (.list (_ :: xs)) => xs
     | _ => []
-  let parseOther : Sexp → Option (String × List FileInfo)
-    | .list (.atom "other" :: .atom pre :: fs) => (fs.mapM parseFileInfo).map (fun l => (pre, l))
-    | _ => none
   match parseCmd (fsStr p "cmd"), mapIdx parseOut (sub "outs"), (sub "listing").mapM parseFileInfo with
   | some cmd, some outs, some listing =>
     let fl : ShootVerif.Cli.Flags := match p.field? "flags" with
@@ -143,20 +140,10 @@ def glob17Case (id : String) (payload : List Sexp) : List String :=
       | none => {}
     let c : Config := { cmd := cmd, pkgPrefix := fsStr p "pkg", outs := outs,
                         cleanActive := ShootVerif.Cli.cleanActiveWith fl (fsStr p "aiofile"), genfile := fsStr p "genfile", listing := listing }
-    let dp : Option DirPat := match sub "dirpat" with
-      | .atom "literal" :: _ => some .literal
-      | .atom "bad" :: _ => some .bad
-      | .atom "wild" :: rest =>
-        let self := rest.any (fun x => x == .atom "self")
-        ((rest.filter (fun x => x != .atom "self")).mapM parseOther).map (fun o => DirPat.wild self o)
-      | _ => none
-    match dp with
-    | none => err id "bad-dirpat"
-    | some dp =>
-      let model : List (String × String) := match c.cleanGlob dp with
-        | some rms => [("exit", "0"), ("removed", dash (sortStrs rms)), ("removed-outside", fsyn (!removedInside c rms))]
-        | none => [("exit", "1"), ("removed", "-"), ("removed-outside", "no")]
-      both id model [("exit", "0"), ("removed-outside", "no")] (regionGlob c dp).str
+    -- (the `dirpat` field describes the other directories the path WOULD match as a pattern: since /repo a3d970c it plays no role)
+    let rms := c.clean
+    let model : List (String × String) := [("exit", "0"), ("removed", dash (sortStrs rms)), ("removed-outside", fsyn (!removedInside c rms))]
+    both id model [("exit", "0"), ("removed-outside", "no")] (region c).str
   | _, _, _ => err id "bad-glob17-case"
 
 /-- `(case <id> dirline (cmdline "shoot new -type=*") (line "//go:generate go tool shoot new -type=*"))`: findCmdLine -/
